@@ -86,3 +86,13 @@ type DateTime interface {
 	// GoTime returns the underlying time.Time object.
 	GoTime() time.Time
 }
+
+// unquoteJSON returns the contents of the JSON string in data, or an error if
+// data is not a double-quoted string.
+func unquoteJSON(data []byte) ([]byte, error) {
+	const quotes = 2
+	if len(data) < quotes || data[0] != '"' || data[len(data)-1] != '"' {
+		return nil, fmt.Errorf("%w: Cannot parse %s as a JSON string", ErrSQLType, data)
+	}
+	return data[1 : len(data)-1], nil
+}
